@@ -75,6 +75,8 @@ func (this *minerRefundExecutor) Execute(transaction *types.Transaction, header 
 	refundInfo, ok := refundInfos[refundHeight]
 	if ok {
 		refundInfo.AddRefundInfo(addr, money)
+		// the map holds RefundInfoList by value: store the grown list back
+		refundInfos[refundHeight] = refundInfo
 	} else {
 		refundInfo = types.RefundInfoList{}
 		refundInfo.AddRefundInfo(addr, money)
